@@ -587,6 +587,11 @@ class Builtins:
         if isinstance(c, DictV):
             i = self.dict_find(I, c, k)
             if i < 0:
+                fac = getattr(c, "factory", None)
+                if fac is not None:
+                    v = I.call(fac, [], {})
+                    c.pairs.append([k, v])
+                    return v
                 raise Raised(self.mkexc("KeyError", k))
             return c.pairs[i][1]
         if isinstance(c, ProxyV):
